@@ -13,7 +13,7 @@ cd $wt || exit 2
 # normalise: make sure the change is applied
 git apply --check -R _seeded/patch.diff 2>/dev/null || git apply _seeded/patch.diff || { echo "patch state unclear" | tee -a $log; exit 2; }
 demo=poly-commit/tests/demo_$lid.rs
-[ -f $demo ] || cp _seeded/demo.rs $demo
+mkdir -p poly-commit/tests; [ -f $demo ] || cp _seeded/demo.rs $demo
 echo "== demo WITH change (must fail)" >> $log
 cargo test -p ark-poly-commit --offline --test demo_$lid >> $log 2>&1; with=$?
 git apply -R _seeded/patch.diff
